@@ -82,16 +82,25 @@ func main() {
 		if len(files) == 0 {
 			continue
 		}
-		info := &types.Info{Types: map[ast.Expr]types.TypeAndValue{}, Uses: map[*ast.Ident]types.Object{}, Defs: map[*ast.Ident]types.Object{}}
+		info := &types.Info{Types: map[ast.Expr]types.TypeAndValue{}, Uses: map[*ast.Ident]types.Object{}, Defs: map[*ast.Ident]types.Object{}, Selections: map[*ast.SelectorExpr]*types.Selection{}}
 		conf := types.Config{Importer: imp, Error: func(error) {}}
 		tpkg, _ := conf.Check(p.path, fset, files, info)
 		imp.cache[p.path] = tpkg
 		rep.Packages = append(rep.Packages, p.path)
-		rw := &rewriter{fset: fset, info: info, pkg: tpkg, rep: &rep, nextID: &nextID, shared: map[types.Object]int{}, nameOf: map[int]string{}}
+		rw := &rewriter{fset: fset, info: info, pkg: tpkg, rep: &rep, nextID: &nextID, shared: map[types.Object]int{}, nameOf: map[int]string{}, resetOnly: map[types.Object]int{}}
 		rw.findSharedGlobals(files, p.path)
 		// registration of the package-level shared variables (reset before every execution)
 		regFile := map[*ast.File][]ast.Stmt{}
+		regAll := map[types.Object]int{}
 		for o, id := range rw.shared {
+			regAll[o] = id
+		}
+		for o, id := range rw.resetOnly {
+			if _, ok := rw.shared[o]; !ok {
+				regAll[o] = id
+			}
+		}
+		for o, id := range regAll {
 			if !rw.isPkgVar(o) {
 				continue
 			}
@@ -209,6 +218,9 @@ type rewriter struct {
 	nextID *int
 	shared map[types.Object]int // shared variable -> id
 	nameOf map[int]string
+	// package-level variables of self-synchronised types (package sync) used through pointer-receiver methods:
+	// registered for reset before every execution, not instrumented for the race detector
+	resetOnly map[types.Object]int
 }
 
 func (r *rewriter) isChan(e ast.Expr) bool {
@@ -261,6 +273,18 @@ func refLike(t types.Type) bool {
 	switch t.Underlying().(type) {
 	case *types.Slice, *types.Map, *types.Pointer:
 		return true
+	}
+	return false
+}
+
+// isSyncType: a named type of package sync or sync/atomic (possibly behind a pointer).
+func isSyncType(t types.Type) bool {
+	if p, ok := t.(*types.Pointer); ok {
+		t = p.Elem()
+	}
+	if n, ok := t.(*types.Named); ok && n.Obj() != nil && n.Obj().Pkg() != nil {
+		pp := n.Obj().Pkg().Path()
+		return pp == "sync" || pp == "sync/atomic"
 	}
 	return false
 }
@@ -343,6 +367,34 @@ func (r *rewriter) findSharedGlobals(files []*ast.File, pkgPath string) {
 						}
 					}
 				case *ast.CallExpr:
+					// G.M(...) with a pointer-receiver method on a package-level variable: the call can change G.
+					// Types of package sync (Pool, Map, Once, Mutex, atomic.*) synchronise their own accesses, so they
+					// are not race-instrumented, but they ARE state: registered so that every execution starts from
+					// their initial value (a warm pool or a done Once would hide the cold-state behaviour).
+					if se, ok := x.Fun.(*ast.SelectorExpr); ok {
+						if gi, ok := se.X.(*ast.Ident); ok {
+							if g := r.objOf(gi); g != nil && r.isPkgVar(g) && !inVerifFile(r.fset, g.Pos()) {
+								if sel := r.info.Selections[se]; sel != nil && sel.Kind() == types.MethodVal {
+									if fn, ok := sel.Obj().(*types.Func); ok {
+										if sig, ok := fn.Type().(*types.Signature); ok && sig.Recv() != nil {
+											if _, ptr := sig.Recv().Type().(*types.Pointer); ptr {
+												if isSyncType(g.Type()) {
+													if _, done := r.resetOnly[g]; !done {
+														id := *r.nextID
+														*r.nextID++
+														r.resetOnly[g] = id
+														r.rep.Shared = append(r.rep.Shared, sharedVar{ID: id, Name: g.Name(), Pkg: pkgPath, Kind: "package-level, self-synchronised (reset only)", Pos: r.fset.Position(g.Pos()).String()})
+													}
+												} else {
+													mark(g)
+												}
+											}
+										}
+									}
+								}
+							}
+						}
+					}
 					if fn, ok := x.Fun.(*ast.Ident); ok && (fn.Name == "append" || fn.Name == "copy") && len(x.Args) > 0 {
 						if ri := rootIdent(x.Args[0]); ri != nil {
 							if o := r.objOf(ri); o != nil {
